@@ -20,6 +20,8 @@ def run(res):
     if res.tier == 'quick':
         # the three text-merge helpers, on a smaller sample
         mergecommon.run_merge_cases(res, {'C03'}, 'C03', KNOWN, quick=(8, 40, 8), renderers=('diff3', 'builtin', 'diff', 'diff3only', 'gitonly'))
+    from . import localecommon
+    localecommon.merge_part(res, KNOWN)
     res.assumptions += ['bounded: only the stated small scope of notebooks, edit scripts and strategy tables is explored',
                         'external helpers git merge-file / diff3 behave as installed in this sandbox']
 
